@@ -113,6 +113,14 @@ class GoExec:
         r = simp_bool(cond)
         if r is not None:
             return r
+        if getattr(self, 'prune', False):
+            # cheap feasibility pruning (enabled per contract): a branch whose path condition is unsatisfiable is not explored
+            for val, c2 in ((True, cond), (False, z3.Not(cond))):
+                s = z3.Solver(); s.set('timeout', 300)
+                s.add([h for h in st.hyps() if not z3.is_quantifier(h)]); s.add(c2)
+                if s.check() == z3.unsat:
+                    st.assume(z3.Not(c2) if val else cond)
+                    return not val
         c = self.choose(2)
         if c == 0:
             st.assume(cond); return True
